@@ -7,7 +7,7 @@ import Ogorek.Lemmas.PkRT
 namespace Ogorek
 
 section
-variable {p : Nat}
+variable {p : Nat} {mz : Option PKey → Bool}
 
 /-- `]` (or `(l`): a new empty list in the heap. -/
 theorem pruns_openList (s : PSt) :
@@ -43,19 +43,19 @@ theorem pruns_openDict (s : PSt) :
       hj.stable rfl (KeepsBA.append _ _), rfl, rfl, rfl⟩
     simp [prunFrom, pexec, popMark, palloc, ppush, pyAssignAll, bind, Except.bind, pure, Except.pure]
 
-theorem pputS_none_ok (s s' : PSt) (pb : Bytes) (h : putS p s none = some (pb, s')) :
+theorem pputS_none_ok (s s' : PSt) (pb : Bytes) (h : putS mz p s none = some (pb, s')) :
     PPutOK (ecfg p) p pb (fun _ _ => True) s s' := by
   refine PRunsP.weaken (pputOK_S (c := ecfg p) p s s' none pb h) ?_ (fun _ _ _ _ q => q)
   intro st ⟨hj, r, rest, hs, _⟩
   exact ⟨hj, r, rest, hs, fun k hk => by cases hk⟩
 
 /-- A list on the Python machine: created empty, memoized, filled in place. -/
-theorem ppushesG_list (pb : Bytes) (xs : List PyVal) (fs : List Bytes) {s s1 s' : PSt}
+theorem ppushesG_list (py : Bool) (pb : Bytes) (xs : List PyVal) (fs : List Bytes) {s s1 s' : PSt}
     (hput : PPutOK (ecfg p) p pb (fun _ _ => True) s s1)
     (hf : PFragsGN (ecfg p) p fs (xs.map fun x => [x]) s1 s') :
-    PPushesG (ecfg p) p ((if p ≥ 1 then [93] else [40, 108]) ++ pb ++ cpBatchList p fs) (.list xs) s s' := by
+    PPushesG (ecfg p) p ((if p ≥ 1 then [93] else [40, 108]) ++ pb ++ cpBatchList py p fs) (.list xs) s s' := by
   have hlen : fs.length = xs.length := by simpa using hf.length
-  obtain ⟨gs, e1, e2⟩ := batchList_groups p (fs.zip xs)
+  obtain ⟨gs, e1, e2⟩ := batchList_groups py p (fs.zip xs)
   rw [List.map_fst_zip (by omega)] at e1
   have hsnd : (fs.zip xs).map (·.2) = xs := List.map_snd_zip (by omega)
   have hfst : (fs.zip xs).map (·.1) = fs := List.map_fst_zip (by omega)
@@ -88,13 +88,13 @@ theorem ppushesG_list (pb : Bytes) (xs : List PyVal) (fs : List Bytes) {s s1 s' 
 
 /-- A dict on the Python machine: created empty, memoized, filled in place; it ends up holding the pairs assigned one
     after another. -/
-theorem ppushesG_dict (pb : Bytes) (kvs : List (PyVal × PyVal)) (fs : List Bytes) {s s1 s' : PSt}
+theorem ppushesG_dict (py : Bool) (pb : Bytes) (kvs : List (PyVal × PyVal)) (fs : List Bytes) {s s1 s' : PSt}
     (hput : PPutOK (ecfg p) p pb (fun _ _ => True) s s1)
     (hf : PFragsGN (ecfg p) p fs (kvs.map fun kv => [kv.1, kv.2]) s1 s')
     (hhash : (kvs.all fun e => pyHashable e.1) = true) (hnan : nanKeys kvs ≤ 1) :
-    PPushesG (ecfg p) p ((if p ≥ 1 then [125] else [40, 100]) ++ pb ++ cpBatchDict p fs) (.dict (pyDictOf kvs)) s s' := by
+    PPushesG (ecfg p) p ((if p ≥ 1 then [125] else [40, 100]) ++ pb ++ cpBatchDict py p fs) (.dict (pyDictOf kvs)) s s' := by
   have hlen : fs.length = kvs.length := by simpa using hf.length
-  obtain ⟨gs, e1, e2⟩ := batchDict_groups p (fs.zip kvs)
+  obtain ⟨gs, e1, e2⟩ := batchDict_groups py p (fs.zip kvs)
   rw [List.map_fst_zip (by omega)] at e1
   have hsnd : (fs.zip kvs).map (·.2) = kvs := List.map_snd_zip (by omega)
   have hfst : (fs.zip kvs).map (·.1) = fs := List.map_fst_zip (by omega)
@@ -135,8 +135,8 @@ theorem flatten_map_singleP : (l : List PyVal) → (l.map fun x => [x]).flatten 
 
 mutual
 /-- `save(obj)` read by the Python machine: one value that is the object, the memo as the pickler's. -/
-theorem psk_val : (v : PyObjS) → (s : PSt) → (b : Bytes) → (s' : PSt) →
-    pyOKp p (erase v) → cpSaveS p v s = some (b, s') → PPushesG (ecfg p) p b (pyOf (erase v)) s s'
+theorem psk_val (py : Bool) : (v : PyObjS) → (s : PSt) → (b : Bytes) → (s' : PSt) →
+    pyOKp p (erase v) → cpSaveS mz py p v s = some (b, s') → PPushesG (ecfg p) p b (pyOf (erase v)) s s'
   | .none, s, b, s', _, hs => by
     simp only [cpSaveS, Option.some.injEq, Prod.mk.injEq] at hs
     obtain ⟨rfl, rfl⟩ := hs
@@ -162,8 +162,12 @@ theorem psk_val : (v : PyObjS) → (s : PSt) → (b : Bytes) → (s' : PSt) →
   | .str oid t, s, b, s', hok, hs => by
     simp only [cpSaveS] at hs
     simp only [erase, pyOKp] at hok
-    exact (psaveStrS_okV (c := ecfg p) p s s' (some (.str oid t)) t b hok
-      (fun k hk => by injection hk with hk; subst hk; exact fun _ _ => Iff.rfl) hs).toG
+    refine (psaveStrS_okV (c := ecfg p) p s s' (some (.str oid t)) (if strCopied py p t then none else some (.str oid t)) t b hok
+      (fun k hk => by injection hk with hk; subst hk; exact fun _ _ => Iff.rfl)
+      (fun k hk => by
+        by_cases hc : strCopied py p t = true
+        · simp [hc] at hk
+        · simp [hc] at hk; subst hk; exact fun _ _ => Iff.rfl) hs).toG
       (fun n hp r hr => by simp only [erase, pyOf, PRepG]; exact hr)
   | .bytes oid d, s, b, s', _, hs => by
     simp only [cpSaveS] at hs
@@ -184,18 +188,18 @@ theorem psk_val : (v : PyObjS) → (s : PSt) → (b : Bytes) → (s' : PSt) →
       obtain ⟨rfl, rfl⟩ := hs
       simpa [eraseList, pyOfList] using ppushesG_emptyTuple (c := ecfg p) p s
     · simp only [hemp, Bool.false_eq_true, if_false] at hs
-      cases hsl : cpSaveListS p xs s with
+      cases hsl : cpSaveListS mz py p xs s with
       | none => simp [hsl] at hs
       | some r =>
         obtain ⟨fs, s1⟩ := r
         simp only [hsl] at hs
-        cases hput : putS p s1 none with
+        cases hput : putS mz p s1 none with
         | none => simp [hput] at hs
         | some r2 =>
           obtain ⟨pb, s2⟩ := r2
           simp only [hput, Option.some.injEq, Prod.mk.injEq] at hs
           obtain ⟨rfl, rfl⟩ := hs
-          have hfr := psk_list xs s fs s1 hok hsl
+          have hfr := psk_list py xs s fs s1 hok hsl
           have hi := PFragsGN.flatten hfr
           rw [flatten_map_singleP] at hi
           have hlen : (pyOfList (eraseList xs)).length = xs.length := by rw [pyOfList_length, eraseList_length]
@@ -218,37 +222,37 @@ theorem psk_val : (v : PyObjS) → (s : PSt) → (b : Bytes) → (s' : PSt) →
     simp only [erase, pyOKp] at hok
     simp only [cpSaveS] at hs
     simp only [erase, pyOf]
-    cases hput : putS p s none with
+    cases hput : putS mz p s none with
     | none => simp [hput] at hs
     | some r1 =>
       obtain ⟨pb, s1⟩ := r1
       simp only [hput] at hs
-      cases hsl : cpSaveListS p xs s1 with
+      cases hsl : cpSaveListS mz py p xs s1 with
       | none => simp [hsl] at hs
       | some r =>
         obtain ⟨fs, s2⟩ := r
         simp only [hsl, Option.some.injEq, Prod.mk.injEq] at hs
         obtain ⟨rfl, rfl⟩ := hs
-        exact ppushesG_list pb (pyOfList (eraseList xs)) fs (pputS_none_ok s s1 pb hput) (psk_list xs s1 fs s2 hok hsl)
+        exact ppushesG_list py pb (pyOfList (eraseList xs)) fs (pputS_none_ok s s1 pb hput) (psk_list py xs s1 fs s2 hok hsl)
   | .dict kvs, s, b, s', hok, hs => by
     simp only [erase, pyOKp] at hok
     simp only [cpSaveS] at hs
     simp only [erase, pyOf]
-    cases hput : putS p s none with
+    cases hput : putS mz p s none with
     | none => simp [hput] at hs
     | some r1 =>
       obtain ⟨pb, s1⟩ := r1
       simp only [hput] at hs
-      cases hsl : cpSavePairsS p kvs s1 with
+      cases hsl : cpSavePairsS mz py p kvs s1 with
       | none => simp [hsl] at hs
       | some r =>
         obtain ⟨fs, s2⟩ := r
         simp only [hsl, Option.some.injEq, Prod.mk.injEq] at hs
         obtain ⟨rfl, rfl⟩ := hs
-        exact ppushesG_dict pb (pyOfPairs (erasePairs kvs)) fs (pputS_none_ok s s1 pb hput) (psk_pairs kvs s1 fs s2 hok.1 hsl)
+        exact ppushesG_dict py pb (pyOfPairs (erasePairs kvs)) fs (pputS_none_ok s s1 pb hput) (psk_pairs py kvs s1 fs s2 hok.1 hsl)
           hok.2.1 hok.2.2
-theorem psk_list : (xs : List PyObjS) → (s : PSt) → (fs : List Bytes) → (s' : PSt) →
-    pyOKpList p (eraseList xs) → cpSaveListS p xs s = some (fs, s') →
+theorem psk_list (py : Bool) : (xs : List PyObjS) → (s : PSt) → (fs : List Bytes) → (s' : PSt) →
+    pyOKpList p (eraseList xs) → cpSaveListS mz py p xs s = some (fs, s') →
     PFragsGN (ecfg p) p fs ((pyOfList (eraseList xs)).map fun x => [x]) s s'
   | [], s, fs, s', _, hs => by
     simp only [cpSaveListS, Option.some.injEq, Prod.mk.injEq] at hs
@@ -257,21 +261,21 @@ theorem psk_list : (xs : List PyObjS) → (s : PSt) → (fs : List Bytes) → (s
   | x :: xs, s, fs, s', hok, hs => by
     simp only [eraseList, pyOKpList] at hok
     simp only [cpSaveListS] at hs
-    cases h1 : cpSaveS p x s with
+    cases h1 : cpSaveS mz py p x s with
     | none => simp [h1] at hs
     | some r1 =>
       obtain ⟨b, s1⟩ := r1
       simp only [h1] at hs
-      cases h2 : cpSaveListS p xs s1 with
+      cases h2 : cpSaveListS mz py p xs s1 with
       | none => simp [h2] at hs
       | some r2 =>
         obtain ⟨fs2, s2⟩ := r2
         simp only [h2, Option.some.injEq, Prod.mk.injEq] at hs
         obtain ⟨rfl, rfl⟩ := hs
         simp only [eraseList, pyOfList, List.map_cons, PFragsGN]
-        exact ⟨s1, (psk_val x s b s1 hok.1 h1).toN, psk_list xs s1 fs2 s2 hok.2 h2⟩
-theorem psk_pairs : (kvs : List (PyObjS × PyObjS)) → (s : PSt) → (fs : List Bytes) → (s' : PSt) →
-    pyOKpPairs p (erasePairs kvs) → cpSavePairsS p kvs s = some (fs, s') →
+        exact ⟨s1, (psk_val py x s b s1 hok.1 h1).toN, psk_list py xs s1 fs2 s2 hok.2 h2⟩
+theorem psk_pairs (py : Bool) : (kvs : List (PyObjS × PyObjS)) → (s : PSt) → (fs : List Bytes) → (s' : PSt) →
+    pyOKpPairs p (erasePairs kvs) → cpSavePairsS mz py p kvs s = some (fs, s') →
     PFragsGN (ecfg p) p fs ((pyOfPairs (erasePairs kvs)).map fun kv => [kv.1, kv.2]) s s'
   | [], s, fs, s', _, hs => by
     simp only [cpSavePairsS, Option.some.injEq, Prod.mk.injEq] at hs
@@ -280,25 +284,25 @@ theorem psk_pairs : (kvs : List (PyObjS × PyObjS)) → (s : PSt) → (fs : List
   | (k, v) :: kvs, s, fs, s', hok, hs => by
     simp only [erasePairs, pyOKpPairs] at hok
     simp only [cpSavePairsS] at hs
-    cases h1 : cpSaveS p k s with
+    cases h1 : cpSaveS mz py p k s with
     | none => simp [h1] at hs
     | some r1 =>
       obtain ⟨bk, s1⟩ := r1
       simp only [h1] at hs
-      cases h2 : cpSaveS p v s1 with
+      cases h2 : cpSaveS mz py p v s1 with
       | none => simp [h2] at hs
       | some r2 =>
         obtain ⟨bv, s2⟩ := r2
         simp only [h2] at hs
-        cases h3 : cpSavePairsS p kvs s2 with
+        cases h3 : cpSavePairsS mz py p kvs s2 with
         | none => simp [h3] at hs
         | some r3 =>
           obtain ⟨fs3, s3⟩ := r3
           simp only [h3, Option.some.injEq, Prod.mk.injEq] at hs
           obtain ⟨rfl, rfl⟩ := hs
           simp only [erasePairs, pyOfPairs, List.map_cons, PFragsGN]
-          refine ⟨s2, ?_, psk_pairs kvs s2 fs3 s3 hok.2.2 h3⟩
-          have := PPushesGN.append (psk_val k s bk s1 hok.1 h1).toN (psk_val v s1 bv s2 hok.2.1 h2).toN
+          refine ⟨s2, ?_, psk_pairs py kvs s2 fs3 s3 hok.2.2 h3⟩
+          have := PPushesGN.append (psk_val py k s bk s1 hok.1 h1).toN (psk_val py v s1 bv s2 hok.2.1 h2).toN
           simpa using this
 end
 
